@@ -138,6 +138,12 @@ func c01CompareTable(r *Result, dialect string, inputs []c01TableIn) {
 			}
 			args := ctx.list(in.Args)
 			tx := dry.Table(in.Name, args...)
+			if i%3 == 1 {
+				// the handle is kept and re-used: Session() marks it for cloning, the next chain call clones the Statement
+				tx = tx.Session(&gorm.Session{}).Where("1 = 1")
+			} else if i%3 == 2 {
+				tx = tx.Where("1 = 1").Session(&gorm.Session{NewDB: false}).Order("1")
+			}
 			te := tx.Statement.TableExpr
 			switch {
 			case te == nil:
